@@ -1233,6 +1233,8 @@ def from_gitlab_native(gitlab_scheme, string):
         if "".join([comparator, constraint_item]) in vrc.vers_by_native_comparators:
             comparator = "".join([comparator, constraint_item])
             comparator = vrc.vers_by_native_comparators[comparator]
+            if comparator is None:
+                raise ValueError(f"Unsupported comparator in version requirement: {string!r}")
             continue
         if comparator:
             constraints.append(
